@@ -64,10 +64,13 @@ fn tfidf_with_method(m: usize) -> TfIdfVectorizer {
     serde_json::from_value(v).unwrap()
 }
 
-struct Obs {
+struct Obs1 {
     vocab: Vec<String>, nentries: usize, ctrain: CsMat<usize>, ctest: CsMat<usize>,
     tvocab: Vec<String>, tnentries: usize, ttrain: CsMat<f64>, ttest: CsMat<f64>,
 }
+/// two independent fits of both vectorisers on the same input: every HashMap::new() draws a fresh
+/// RandomState, so the second fit enumerates its vocabulary map in another order
+struct Obs { a: Obs1, b: Obs1 }
 
 fn write_docs(dir: &std::path::Path, tag: &str, docs: &[String]) -> Vec<std::path::PathBuf> {
     std::fs::create_dir_all(dir).unwrap();
@@ -78,59 +81,71 @@ fn write_docs(dir: &std::path::Path, tag: &str, docs: &[String]) -> Vec<std::pat
     }).collect()
 }
 
+/// `with_unseen = false` (the second fit): only the training corpus is transformed; the `ctest` / `ttest` fields then
+/// repeat the training matrices and are not used
+fn run_once(st: &Settings, train: &[String], test: &[String], scratch: &std::path::Path, with_unseen: bool) -> Result<Obs1, String> {
+    let xtr = Array1::from(train.to_vec());
+    let xte = Array1::from(test.to_vec());
+    let cv = configure!(CountVectorizer::params(), st);
+    let tv = configure!(tfidf_with_method(st.method), st);
+    if st.via_files {
+        let utf8 = encoding::all::UTF_8;
+        let strict = encoding::DecoderTrap::Strict;
+        let ftr = write_docs(scratch, "train", train);
+        let fte = write_docs(scratch, "unseen", test);
+        let fitted = match &st.fixed {
+            Some(ws) => cv.fit_vocabulary(ws),
+            None => cv.fit_files(&ftr, utf8, strict),
+        }.map_err(|e| format!("count fit_files: {}", e))?;
+        let tfitted = match &st.fixed {
+            Some(ws) => tv.fit_vocabulary(ws),
+            None => tv.fit_files(&ftr, utf8, strict),
+        }.map_err(|e| format!("tf-idf fit_files: {}", e))?;
+        if *tfitted.method() != method_of(st.method) { return Err("tf-idf method was not set".into()); }
+        let ctrain = fitted.transform_files(&ftr, utf8, strict).map_err(|e| format!("transform_files: {}", e))?;
+        let ttrain = tfitted.transform_files(&ftr, utf8, strict).map_err(|e| format!("tf-idf transform_files: {}", e))?;
+        let r = Obs1 {
+            vocab: fitted.vocabulary().clone(),
+            nentries: fitted.nentries(),
+            ctest: if with_unseen { fitted.transform_files(&fte, utf8, strict).map_err(|e| format!("transform_files: {}", e))? } else { ctrain.clone() },
+            ctrain,
+            tvocab: tfitted.vocabulary().clone(),
+            tnentries: tfitted.nentries(),
+            ttest: if with_unseen { tfitted.transform_files(&fte, utf8, strict).map_err(|e| format!("tf-idf transform_files: {}", e))? } else { ttrain.clone() },
+            ttrain,
+        };
+        let _ = std::fs::remove_dir_all(scratch);
+        return Ok(r);
+    }
+    let fitted = match &st.fixed {
+        Some(ws) => cv.fit_vocabulary(ws),
+        None => cv.fit(&xtr),
+    }.map_err(|e| format!("count fit: {}", e))?;
+    let tfitted = match &st.fixed {
+        Some(ws) => tv.fit_vocabulary(ws),
+        None => tv.fit(&xtr),
+    }.map_err(|e| format!("tf-idf fit: {}", e))?;
+    if *tfitted.method() != method_of(st.method) { return Err("tf-idf method was not set".into()); }
+    let ctrain = fitted.transform(&xtr).map_err(|e| format!("transform: {}", e))?;
+    let ttrain = tfitted.transform(&xtr).map_err(|e| format!("tf-idf transform: {}", e))?;
+    Ok(Obs1 {
+        vocab: fitted.vocabulary().clone(),
+        nentries: fitted.nentries(),
+        ctest: if with_unseen { fitted.transform(&xte).map_err(|e| format!("transform: {}", e))? } else { ctrain.clone() },
+        ctrain,
+        tvocab: tfitted.vocabulary().clone(),
+        tnentries: tfitted.nentries(),
+        ttest: if with_unseen { tfitted.transform(&xte).map_err(|e| format!("tf-idf transform: {}", e))? } else { ttrain.clone() },
+        ttrain,
+    })
+}
+
 fn run_impl(st: &Settings, train: &[String], test: &[String], scratch: &std::path::Path) -> Result<Obs, String> {
     let (st, train, test, scratch) = (st.clone(), train.to_vec(), test.to_vec(), scratch.to_path_buf());
     match guarded(move || -> Result<Obs, String> {
-        let xtr = Array1::from(train.clone());
-        let xte = Array1::from(test.clone());
-        let cv = configure!(CountVectorizer::params(), st);
-        let tv = configure!(tfidf_with_method(st.method), st);
-        if st.via_files {
-            let utf8 = encoding::all::UTF_8;
-            let strict = encoding::DecoderTrap::Strict;
-            let ftr = write_docs(&scratch, "train", &train);
-            let fte = write_docs(&scratch, "unseen", &test);
-            let fitted = match &st.fixed {
-                Some(ws) => cv.fit_vocabulary(ws),
-                None => cv.fit_files(&ftr, utf8, strict),
-            }.map_err(|e| format!("count fit_files: {}", e))?;
-            let tfitted = match &st.fixed {
-                Some(ws) => tv.fit_vocabulary(ws),
-                None => tv.fit_files(&ftr, utf8, strict),
-            }.map_err(|e| format!("tf-idf fit_files: {}", e))?;
-            if *tfitted.method() != method_of(st.method) { return Err("tf-idf method was not set".into()); }
-            let r = Obs {
-                vocab: fitted.vocabulary().clone(),
-                nentries: fitted.nentries(),
-                ctrain: fitted.transform_files(&ftr, utf8, strict).map_err(|e| format!("transform_files: {}", e))?,
-                ctest: fitted.transform_files(&fte, utf8, strict).map_err(|e| format!("transform_files: {}", e))?,
-                tvocab: tfitted.vocabulary().clone(),
-                tnentries: tfitted.nentries(),
-                ttrain: tfitted.transform_files(&ftr, utf8, strict).map_err(|e| format!("tf-idf transform_files: {}", e))?,
-                ttest: tfitted.transform_files(&fte, utf8, strict).map_err(|e| format!("tf-idf transform_files: {}", e))?,
-            };
-            let _ = std::fs::remove_dir_all(&scratch);
-            return Ok(r);
-        }
-        let fitted = match &st.fixed {
-            Some(ws) => cv.fit_vocabulary(ws),
-            None => cv.fit(&xtr),
-        }.map_err(|e| format!("count fit: {}", e))?;
-        let tfitted = match &st.fixed {
-            Some(ws) => tv.fit_vocabulary(ws),
-            None => tv.fit(&xtr),
-        }.map_err(|e| format!("tf-idf fit: {}", e))?;
-        if *tfitted.method() != method_of(st.method) { return Err("tf-idf method was not set".into()); }
-        Ok(Obs {
-            vocab: fitted.vocabulary().clone(),
-            nentries: fitted.nentries(),
-            ctrain: fitted.transform(&xtr).map_err(|e| format!("transform: {}", e))?,
-            ctest: fitted.transform(&xte).map_err(|e| format!("transform: {}", e))?,
-            tvocab: tfitted.vocabulary().clone(),
-            tnentries: tfitted.nentries(),
-            ttrain: tfitted.transform(&xtr).map_err(|e| format!("tf-idf transform: {}", e))?,
-            ttest: tfitted.transform(&xte).map_err(|e| format!("tf-idf transform: {}", e))?,
-        })
+        let a = run_once(&st, &train, &test, &scratch, true)?;
+        let b = run_once(&st, &train, &test, &scratch, false).map_err(|e| format!("second fit: {}", e))?;
+        Ok(Obs { a, b })
     }) {
         Ok(r) => r,
         Err(p) => Err(format!("PANIC: {}", p)),
@@ -180,7 +195,7 @@ fn cfmat(m: &CsMat<f64>) -> String {
         .collect();
     format!("{{| fm_rows := {}; fm_cols := {}; fm_data := [{}] |}}", cn(m.rows() as u64), cn(m.cols() as u64), rows.join("; "))
 }
-fn jstrs(xs: &[String]) -> String { clist(xs, |s| jstr(s)).replace("; ", ", ") }
+fn jstrs(xs: &[String]) -> String { format!("[{}]", xs.iter().map(|s| jstr(s)).collect::<Vec<_>>().join(", ")) }
 
 fn ln_args(method: usize, n: usize, df: usize) -> f64 {
     match method {
@@ -233,7 +248,7 @@ impl<'a> Gen<'a> {
                 if lo > 0 && df.values().any(|&d| d == lo) { self.out.bump("edge_df_equals_lower_bound"); }
                 if lo > 0 && df.values().any(|&d| d + 1 == lo) { self.out.bump("edge_df_just_below_lower_bound"); }
                 if df.values().any(|&d| d == hi) { self.out.bump("edge_df_equals_upper_bound"); }
-                if df.values().any(|&d| d == hi + 1) { self.out.bump("edge_df_just_above_upper_bound"); }
+                if df.values().any(|&d| Some(d) == hi.checked_add(1)) { self.out.bump("edge_df_just_above_upper_bound"); }
                 if (lo == 0) != (hi == n) { self.out.bump("edge_one_sided_window"); }
             }
             let stopped = |w: &String| st.stop.as_ref().map_or(false, |sw| sw.contains(w));
@@ -280,14 +295,46 @@ impl<'a> Gen<'a> {
             }).collect();
             format!("[{}]", items.join("; "))
         };
+        // expression-level probes of the bound computation (same Rust expression as filter_vocabulary), also for
+        // document counts no corpus can reach: around 2^24 (where `n as f32` starts to round) and far beyond
+        let mut probes: Vec<String> = vec![];
+        {
+            let mut pr = Sm64::new(fnv(desc.as_bytes()) ^ 0x5eed_c17);
+            let big: [u64; 12] = [16777215, 16777216, 16777217, 16777218, 16777219, 12582914, 12582911, 33554433, 25165825,
+                                  1 << 31, (1 << 40) + 1, u64::MAX >> 1];
+            let fs: [f32; 10] = [st.mindf, st.maxdf, 1.0 / 3.0, 2.0 / 3.0, 0.7, 0.99999994, 1.0000001, 1.0e-40, 3.0e38, f32::INFINITY];
+            for i in 0..6 {
+                let f = if i < 2 { fs[i] } else { *pr.pick(&fs) };
+                let n: u64 = match pr.below(4) { 0 => train.len() as u64, 1 => pr.below(4096), 2 => 16777216 - 8 + pr.below(17), _ => *pr.pick(&big) };
+                let b = (f * (n as usize) as f32) as usize;
+                probes.push(format!("(({}, {}), {})", cz(f.to_bits() as i64), cn(n), cn(b as u64)));
+            }
+        }
+        // ... and of the f32 division by which bounds "k of n documents" are written
+        let mut ratios: Vec<String> = vec![];
+        {
+            let mut pr = Sm64::new(fnv(desc.as_bytes()) ^ 0x7a71_0c17);
+            for i in 0..4 {
+                let n = if i == 0 { train.len().max(1) as u64 } else { 1 + pr.below(if i == 1 { 24 } else { 4096 }) };
+                let k = pr.below(n + 1);
+                let q = k as f32 / n as f32;
+                ratios.push(format!("(({}, {}), {})", cn(k), cn(n), cz(q.to_bits() as i64)));
+            }
+        }
+        let obs2 = &obs.b;
+        let obs = &obs.a;
+        if obs.vocab != obs2.vocab || obs.tvocab != obs2.tvocab { self.out.bump("edge_second_fit_enumerates_in_another_order"); }
+        if obs.vocab != obs.tvocab { self.out.bump("edge_count_and_tfidf_vectoriser_orders_differ"); }
         let coq = format!(
-            "{{| c_id := {}; c_mode := {}; c_lower := {}; c_nmin := {}; c_nmax := {}; c_mindf := {}; c_maxdf := {}; c_stop := {}; c_cap := {}; c_fixed := {}; c_train := {}; c_test := {}; c_method := {}; c_ln := [{}]; c_vocab := {}; c_nentries := {}; c_ctrain := {}; c_ctest := {}; c_tvocab := {}; c_tnentries := {}; c_ttrain := {}; c_ttest := {}; c_idfs := [{}] |}}",
+            "{{| c_id := {}; c_mode := {}; c_lower := {}; c_nmin := {}; c_nmax := {}; c_mindf := {}; c_maxdf := {}; c_stop := {}; c_cap := {}; c_fixed := {}; c_train := {}; c_test := {}; c_method := {}; c_ln := [{}]; c_vocab := {}; c_nentries := {}; c_ctrain := {}; c_ctest := {}; c_tvocab := {}; c_tnentries := {}; c_ttrain := {}; c_ttest := {}; c_idfs := [{}]; c_vocab2 := {}; c_ctrain2 := {}; c_tvocab2 := {}; c_ttrain2 := {}; c_bounds := [{}]; c_ratios := [{}] |}}",
             cn(id), cn(mode), cbool(st.lower), cn(st.nmin as u64), cn(st.nmax as u64),
             cz(st.mindf.to_bits() as i64), cz(st.maxdf.to_bits() as i64),
             copt_strs(&st.stop), st.cap.map_or("None".into(), |k| format!("(Some {})", cn(k as u64))), copt_strs(&st.fixed),
             docs_term(train, &toks_tr), docs_term(test, &toks_te), cn(st.method as u64), lns.join("; "),
             cstrs(&obs.vocab), cn(obs.nentries as u64), ccmat(&obs.ctrain), ccmat(&obs.ctest),
-            cstrs(&obs.tvocab), cn(obs.tnentries as u64), cfmat(&obs.ttrain), cfmat(&obs.ttest), idfs.join("; "));
+            cstrs(&obs.tvocab), cn(obs.tnentries as u64), cfmat(&obs.ttrain), cfmat(&obs.ttest), idfs.join("; "),
+            cstrs(&obs2.vocab), ccmat(&obs2.ctrain), cstrs(&obs2.tvocab), cfmat(&obs2.ttrain),
+            probes.join("; "), ratios.join("; "));
         // non-trivial: at least two distinct vocabulary entries and at least one stored count
         let nontrivial = obs.vocab.len() >= 2 && obs.ctrain.nnz() + obs.ctest.nnz() > 0;
         let key = if nontrivial { Some(fnv(desc.as_bytes())) } else { None };
@@ -334,7 +381,7 @@ fn df_grid(r: &mut Sm64, n: usize) -> f32 {
     match r.below(12) {
         0 => 0.0, 1 => 0.25, 2 => 1.0 / 3.0, 3 => 0.5, 4 => 2.0 / 3.0, 5 => 0.75, 6 => 1.0,
         7 => *r.pick(&[0.2f32, 0.4, 0.6, 0.8, 0.1, 0.9]),
-        8 => *r.pick(&[1.5f32, 2.0, 1.0000001, 0.99999994]),
+        8 => *r.pick(&[1.5f32, 2.0, 1.0000001, 0.99999994, 1.0000001, 0.99999994, f32::INFINITY, 1.0e-40, 3.0e38, -0.0]),
         _ => r.below(n as u64 + 1) as f32 / (n.max(1) as f32),   // k/n: the product lands on (or just beside) the integer k
     }
 }
@@ -444,7 +491,7 @@ fn main() {
     }
 
     // ---- (b) structured random, ASCII, default tokeniser (mode 0)
-    let nrandom = if thorough { 6000 } else { 3000 };
+    let nrandom = if thorough { 6000 } else { 2400 };
     let (maxdocs, maxlen) = if thorough { (12, 15) } else { (8, 10) };
     for _ in 0..nrandom {
         let mut r = rng.fork();
@@ -492,6 +539,72 @@ fn main() {
         g.emit("unicode", &st, &train, &test);
     }
 
+    // ---- (f) document-frequency borders: 5..12 documents, words planted in exactly k-1, k, k+1 documents, bounds k/n
+    //          (computed in f32 as a user would) and decimal literals - the products are not exact and land on, just
+    //          below or just above an integer; this is where another rounding or another width of the product differs
+    let nborder = if thorough { 900 } else { 360 };
+    for _ in 0..nborder {
+        let mut r = rng.fork();
+        let n = 5 + r.below(8) as usize;
+        let k = 1 + r.below(n as u64) as usize;
+        let bw = ["aa", "bb", "ab", "zz9", "c_1", "qq"];
+        let dfs = [k.saturating_sub(1), k, (k + 1).min(n), r.below(n as u64 + 1) as usize, r.below(n as u64 + 1) as usize, n];
+        let mut docs: Vec<Vec<&str>> = vec![vec![]; n];
+        for (w, &d) in bw.iter().zip(dfs.iter()) {
+            let mut idx: Vec<usize> = (0..n).collect();
+            r.shuffle(&mut idx);
+            for &j in &idx[..d] {
+                docs[j].push(*w);
+                if r.chance(0.2) { docs[j].push(*w); }
+            }
+        }
+        let train: Vec<String> = docs.iter_mut().map(|d| { r.shuffle(d); d.join(*r.pick(&[" ", ", ", "; "])) }).collect();
+        let lit = [0.1f32, 0.2, 0.3, 0.4, 0.6, 0.7, 0.8, 0.9, 1.0 / 3.0, 2.0 / 3.0, 0.25, 0.75, 0.5];
+        let kn = k as f32 / n as f32;
+        let j = r.below(k as u64 + 1) as usize;
+        let (lo, hi) = match r.below(6) {
+            0 => (kn, 1.0),
+            1 => (0.0, kn),
+            2 => (kn, kn),
+            3 => (j as f32 / n as f32, kn),
+            4 => { let a = *r.pick(&lit); let b = *r.pick(&lit); if a <= b { (a, b) } else { (b, a) } },
+            _ => { let a = *r.pick(&lit); if a <= kn { (a, kn) } else { (kn, a) } },
+        };
+        let (nmin, nmax) = *r.pick(&[(1usize, 1usize), (1, 1), (1, 2)]);
+        let st = Settings { lower: true, normalize: r.chance(0.5), nmin, nmax, mindf: lo, maxdf: hi,
+                            stop: if r.chance(0.15) { Some(vec!["bb".to_string()]) } else { None },
+                            cap: if r.chance(0.15) { Some(1 + r.below(6) as usize) } else { None },
+                            fixed: None, tok: Tok::Default, method: r.below(3) as usize, via_files: r.chance(0.05) };
+        let test = unseen(&mut r, &train, &bw[..4], &SEPS, 5);
+        g.emit("df_border", &st, &train, &test);
+    }
+
+    // ---- (g) the whole ASCII range (mode 0): printable characters, tab / newline / carriage return and a few control
+    //          characters, biased to word characters and to the characters next to the \w ranges ( / : @ [ ` { ^ )
+    let nascii = if thorough { 900 } else { 360 };
+    for _ in 0..nascii {
+        let mut r = rng.fork();
+        let border: Vec<char> = "/:@[`{^_09AZaz".chars().collect();
+        let ctrl: Vec<char> = vec!['\t', '\n', '\r', '\u{1}', '\u{b}', '\u{c}', '\u{1f}', '\u{7f}'];
+        let mk = |r: &mut Sm64| -> String {
+            let len = r.below(25) as usize;
+            (0..len).map(|_| match r.below(10) {
+                0..=3 => *r.pick(&['a', 'b', 'A', 'B', 'z', 'Z', '0', '9', '_', 'k', 'K']),
+                4 | 5 => *r.pick(&border),
+                6 => ' ',
+                7 => *r.pick(&ctrl),
+                _ => (32 + r.below(95)) as u8 as char,
+            }).collect()
+        };
+        let nd = 1 + r.below(4) as usize;
+        let train: Vec<String> = (0..nd).map(|_| mk(&mut r)).collect();
+        let mut st = settings_for(&mut r, &train, Tok::Default, &default_re, false);
+        if r.chance(0.6) { st.cap = None; st.stop = None; }
+        let mut test: Vec<String> = (0..r.below(3)).map(|_| mk(&mut r)).collect();
+        if !train.is_empty() && r.chance(0.5) { test.push(train[0].to_uppercase()); }
+        g.emit("ascii_full", &st, &train, &test);
+    }
+
     // ---- (e) malformed settings: must be refused with an error
     {
         let base = Settings { lower: true, normalize: true, nmin: 1, nmax: 1, mindf: 0.0, maxdf: 1.0, stop: None, cap: None, fixed: None,
@@ -509,5 +622,5 @@ fn main() {
     }
 
     let _ = std::fs::remove_dir_all(&scratch);
-    out.finish("corpora over small word alphabets (repeats, empty documents, one-letter words, mixed case, punctuation, OOV words in unseen documents): exhaustive for <= 2 documents of <= 3 tokens over 2 words, random ASCII (model tokenises), function tokenisers / custom regexes and non-ASCII text (harness tokenises); settings: all n-gram ranges 1<=min<=max<=3, document-frequency windows on the grid {0,1/4,1/3,1/2,2/3,3/4,1} + k/n + >1 + NaN, stop words drawn from the occurring n-grams, caps 0..|candidates|+1, fixed vocabularies, three idf methods; a case is non-trivial when the fitted vocabulary has >= 2 entries and some count is stored; distinct = distinct (corpus, settings) hashes");
+    out.finish("corpora over small word alphabets (repeats, empty documents, one-letter words, mixed case, punctuation, OOV words in unseen documents): exhaustive for <= 2 documents of <= 3 tokens over 2 words, random ASCII (model tokenises), function tokenisers / custom regexes and non-ASCII text (harness tokenises); settings: all n-gram ranges 1<=min<=max<=3, document-frequency windows on the grid {0,1/4,1/3,1/2,2/3,3/4,1} + decimal literals + k/n (computed in f32) + >1 + NaN / inf / subnormal / huge / -0.0, a border stream (5..12 documents, words planted in exactly k-1, k, k+1 documents, bounds k/n), a stream over the whole ASCII range, stop words drawn from the occurring n-grams, caps 0..|candidates|+1, fixed vocabularies, three idf methods; every case fits both vectorisers twice (two hash enumeration orders each; the second fit transforms the training corpus) and carries 6 expression-level probes of the bound computation (document counts up to 2^63) and 4 of the f32 division k/n; a case is non-trivial when the fitted vocabulary has >= 2 entries and some count is stored; distinct = distinct (corpus, settings) hashes");
 }
